@@ -133,7 +133,10 @@ func decodeGeneve(data []byte, p gopacket.PacketBuilder) error {
 // See the docs for gopacket.SerializableLayer for more info.
 func (gn *Geneve) SerializeTo(b gopacket.SerializeBuffer, opts gopacket.SerializeOptions) error {
 	var optionsLength int
-	for _, o := range gn.Options {
+	for i, o := range gn.Options {
+		if o == nil {
+			return fmt.Errorf("Geneve option %d is nil", i)
+		}
 		dataLen := len(o.Data) & ^3
 		optionsLength += 4 + dataLen
 	}
